@@ -462,7 +462,8 @@ fn len_class(n: usize) -> &'static str {
         511..=513 => "len511-513",
         514..=4094 => "len514-4094",
         4095..=4097 => "len4095-4097",
-        _ => "len>4097",
+        4098..=7999 => "len>4097",
+        _ => "len>=8000",
     }
 }
 
@@ -877,13 +878,25 @@ fn place(guard: bool) -> BoxedStrategy<Place> {
     }
 }
 
+/// lengths of 8 KiB..68 KiB (about one case in 150): kernels that work in blocks with narrow
+/// per-lane accumulators, interleaved lanes or multi-round loops only leave their first round
+/// on inputs of thousands of vector widths
+fn huge_len() -> BoxedStrategy<usize> {
+    prop_oneof![
+        2 => proptest::sample::select(vec![8191usize, 8192, 8193, 8224, 12_288, 16_383, 16_384, 16_385, 24_575, 24_576, 24_577, 32_768, 36_864, 49_152, 65_535, 65_536, 65_537]),
+        1 => 8_000usize..=68_000,
+    ]
+    .boxed()
+}
+
 fn len_s(tier: Tier) -> BoxedStrategy<usize> {
     let big = tier.pick(6000, 20_000);
     prop_oneof![
-        6 => 0usize..=130,
-        3 => proptest::sample::select(vec![15usize, 16, 17, 31, 32, 33, 47, 48, 49, 63, 64, 65, 95, 96, 97, 127, 128, 129]),
-        1 => proptest::sample::select(vec![255usize, 256, 257, 511, 512, 513, 4095, 4096, 4097]),
-        1 => 131usize..=big,
+        900 => 0usize..=130,
+        450 => proptest::sample::select(vec![15usize, 16, 17, 31, 32, 33, 47, 48, 49, 63, 64, 65, 95, 96, 97, 127, 128, 129]),
+        150 => proptest::sample::select(vec![255usize, 256, 257, 511, 512, 513, 4095, 4096, 4097]),
+        150 => 131usize..=big,
+        11 => huge_len(),
     ]
     .boxed()
 }
@@ -962,8 +975,9 @@ fn char_set() -> BoxedStrategy<Bytes> {
 fn text(tier: Tier) -> BoxedStrategy<Text> {
     let n = || prop_oneof![3 => 0usize..=40, 2 => proptest::sample::select(vec![13usize, 14, 15, 16, 29, 30, 31, 32, 61, 62, 63, 64]), 1 => 0usize..=300];
     let bad = prop_oneof![5 => Just(0u8), 6 => 1u8..(BAD_GROUPS.len() as u8)];
+    let pre = prop_oneof![150 => n(), 1 => huge_len()];
     prop_oneof![
-        8 => (n(), 0u8..6, bad, any::<u8>(), prop_oneof![2 => Just(0usize), 3 => n()], 0u8..6, any::<u64>())
+        8 => (pre, 0u8..6, bad, any::<u8>(), prop_oneof![2 => Just(0usize), 3 => n()], 0u8..6, any::<u64>())
             .prop_map(|(pre, pre_kind, bad, sub, post, post_kind, seed)| Text::Built { pre, pre_kind, bad, sub, post, post_kind, seed }),
         1 => data(len_s(tier)).prop_map(Text::Raw),
     ]
@@ -2203,7 +2217,7 @@ impl Prop for P {
         "C14"
     }
     fn rule(&self) -> &'static str {
-        "one proptest strategy per cell; byte strings of length 0..=130 (uniform), the lane/page boundaries {15..17,31..33,47..49,63..65,95..97,127..129,255..257,511..513,4095..4097} and up to 6000 (quick) / 20000 (thorough) bytes, 11 content classes plus forced >=0x80 / embedded-NUL / 0x7f-0x80 tweaks; second operands derived from the first (same, one differing byte, differing last byte, proper prefix, extension, unrelated); needles planted at a generated position incl. the last byte, absent, or cut from the haystack with the last byte changed; UTF-8 built as valid filler + one of 10 systematically invalid fragments placed at the end or at a 16/32/64-byte lane boundary; every buffer materialised at a generated alignment 0..63 inside a canary-filled block, in *_guard cells flush against a PROT_NONE page with exactly one operation per case. Non-trivial = the primary byte string has length >= 17 and is not constant (bitops: a word other than 0/!0; base64/hex: >= 4 / >= 2 bytes). Distinct by hash of the case JSON."
+        "one proptest strategy per cell; byte strings of length 0..=130 (uniform), the lane/page boundaries {15..17,31..33,47..49,63..65,95..97,127..129,255..257,511..513,4095..4097} and up to 6000 (quick) / 20000 (thorough) bytes, about one case in 150 of 8..68 KiB (block-accumulator and multi-round kernels), 11 content classes plus forced >=0x80 / embedded-NUL / 0x7f-0x80 tweaks; second operands derived from the first (same, one differing byte, differing last byte, proper prefix, extension, unrelated); needles planted at a generated position incl. the last byte, absent, or cut from the haystack with the last byte changed; UTF-8 built as valid filler + one of 10 systematically invalid fragments placed at the end or at a 16/32/64-byte lane boundary; every buffer materialised at a generated alignment 0..63 inside a canary-filled block, in *_guard cells flush against a PROT_NONE page with exactly one operation per case. Non-trivial = the primary byte string has length >= 17 and is not constant (bitops: a word other than 0/!0; base64/hex: >= 4 / >= 2 bytes). Distinct by hash of the case JSON."
     }
     fn assumptions(&self) -> Vec<String> {
         vec![
